@@ -1,6 +1,8 @@
 import Proofs.SrcBlocks
 import Proofs.SrcChain
 import Proofs.SrcCase
+import Proofs.SrcCondErr
+import Proofs.SrcRelInclude
 import Proofs.SrcRelRender
 import Proofs.SrcCompileLines
 import Proofs.C10
@@ -582,3 +584,842 @@ example (O : OutPrims) (fs : FS) (env : Env) (out : Bytes) :
   (case_when_else_source c10Prims O {} fs 1 1 env [49] [50, 44, 32, 49] c10A c10B Ws.std Ws.std Ws.std Ws.std
     (.lit (.int .int 1)) [.lit (.int .int 2), .lit (.int .int 1)] (.int .int 1) (by decide) (by decide) (by decide) (by decide)
     rfl rfl (by decide) (by decide) rfl).1 rfl out
+
+/-! ## A condition that FAILS: `{% if c0 %}A0{% elsif c1 %}A1 … {% else %}E{% endif %}`
+
+`if_chain_first_source` / `if_chain_clause_source` / `if_chain_none_source` need every condition up to the selected clause
+to evaluate. The two theorems below are the remaining case of `if_denotation`, read on source text: the first condition
+that is not falsy FAILS with the cause `x` (an evaluation error: an undefined filter, a filter error, a range bound that
+is not an integer …). The render then fails with that cause, located — as `ifTagCompiler` does with
+`parser.WrapError(err, b.body)` — at the line of the tag the condition stands in: the `if` tag for `c0`, the `elsif` tag
+for a later one (not the line of the `if` tag). Neither that body nor any later one is rendered, later conditions are not
+evaluated (they need not evaluate): `written`, the bytes the writer has received when `FRender` returns, is empty. -/
+
+/-- **C10 (the condition of the `if` tag fails), from source bytes.** If `c0` is an expression whose evaluation fails with
+    cause `x`, the block — whatever clauses follow, as long as they compile — fails with `x` at the line of the `if` tag, and
+    nothing has been written. -/
+theorem if_chain_first_cond_err_source (P : Prims) (O : OutPrims) (cfg : Cfg) (fs : FS) (fuel : Nat) (line : Nat) (env : Env)
+    (c0 : Bytes) (w0 : Ws) (A0 : List Item) (rest : List Clause) (wE : Ws) (e0 : Expr) (x : Cause)
+    (hg : GoodDelims (Delims.ofList cfg.delims)) (hc : Clean (Delims.ofList cfg.delims) (chainSrc c0 w0 A0 rest wE))
+    (hp : parseExprSource c0 = .ok e0) (hA : Compiles (Delims.ofList cfg.delims) A0 0)
+    (hrest : ∀ c ∈ rest, c.Good (Delims.ofList cfg.delims))
+    (hv : evaluate P env e0 = .err x) :
+    run P O cfg fs fuel (spell (Delims.ofList cfg.delims) (chainSrc c0 w0 A0 rest wE)) line env = .err ⟨line, true, x, .byCause⟩ ∧
+    written P O cfg fs fuel (spell (Delims.ofList cfg.delims) (chainSrc c0 w0 A0 rest wE)) line env = [] := by
+  rw [chainSrc_eq_blockSrcK] at hc ⊢
+  exact chainK_first_cond_err P O cfg fs fuel line env nmIf (.inl rfl) c0 w0 A0 rest wE e0 x hg hc hp hA hrest
+    (fun h => by cases h) hv
+
+/-- **C10 (the condition of an `elsif` clause fails), from source bytes.** If the condition of the `if` tag and the conditions
+    of the `elsif` clauses `pre` all evaluate falsy, and the next clause `sel` is an `elsif` whose condition `t` is an expression
+    whose evaluation fails with cause `x`, then the block — whatever clauses `post` follow, as long as they compile — fails with
+    `x` located at the line of THAT `elsif` tag (the start line plus the newlines of everything before the tag), and nothing has
+    been written. -/
+theorem if_chain_cond_err_source (P : Prims) (O : OutPrims) (cfg : Cfg) (fs : FS) (fuel : Nat) (line : Nat) (env : Env)
+    (c0 : Bytes) (w0 : Ws) (A0 : List Item) (pre : List Clause) (sel : Clause) (post : List Clause) (wE : Ws) (e0 : Expr) (v0 : GoVal)
+    (t : Bytes) (e : Expr) (x : Cause)
+    (hg : GoodDelims (Delims.ofList cfg.delims))
+    (hc : Clean (Delims.ofList cfg.delims) (chainSrc c0 w0 A0 (pre ++ sel :: post) wE))
+    (hp : parseExprSource c0 = .ok e0) (hA : Compiles (Delims.ofList cfg.delims) A0 0)
+    (hrest : ∀ c ∈ pre ++ sel :: post, c.Good (Delims.ofList cfg.delims))
+    (hv : evaluate P env e0 = .ok v0) (hf : v0.test = false)
+    (hpre : ∀ c ∈ pre, c.Falsy P env)
+    (hsel : sel.cond = some t) (hpe : parseExprSource t = .ok e) (hve : evaluate P env e = .err x) :
+    run P O cfg fs fuel (spell (Delims.ofList cfg.delims) (chainSrc c0 w0 A0 (pre ++ sel :: post) wE)) line env =
+      .err ⟨line + countNL (spell (Delims.ofList cfg.delims) (tg nmIf c0 w0 :: (A0 ++ clauseItems pre))), true, x, .byCause⟩ ∧
+    written P O cfg fs fuel (spell (Delims.ofList cfg.delims) (chainSrc c0 w0 A0 (pre ++ sel :: post) wE)) line env = [] := by
+  rw [chainSrc_eq_blockSrcK] at hc ⊢
+  have hline : line + countNL (spell (Delims.ofList cfg.delims) (tg nmIf c0 w0 :: (A0 ++ clauseItems pre))) =
+      line + countNL ((tg nmIf c0 w0).spell (Delims.ofList cfg.delims)) + countNL (spell (Delims.ofList cfg.delims) A0) +
+        countNL (spell (Delims.ofList cfg.delims) (clauseItemsK nmElsif pre)) := by
+    rw [clauseItemsK_elsif]
+    simp only [spell_cons, spell_append, countNL_append]
+    omega
+  rw [hline]
+  apply run_written_single_fail P O cfg fs fuel _ line env hg hc _ _
+    (chainK_compile _ line nmIf (.inl rfl) c0 w0 A0 (pre ++ sel :: post) wE e0 hp hA hrest (fun h => by cases h))
+  rw [ifBrs_append]
+  simp only [ifBrs]
+  have hcond0 : condRes (mkCtx P O cfg fs fuel).P (⟨env, {}⟩ : RS).env (.expr line e0) = .ok false := by
+    show condRes P env (.expr line e0) = .ok false
+    simp only [condRes, hv, hf]
+  have htest : sel.testAt (line + countNL ((tg nmIf c0 w0).spell (Delims.ofList cfg.delims)) +
+      countNL (spell (Delims.ofList cfg.delims) A0) + countNL (spell (Delims.ofList cfg.delims) (clauseItemsK nmElsif pre))) =
+      .expr (line + countNL ((tg nmIf c0 w0).spell (Delims.ofList cfg.delims)) +
+      countNL (spell (Delims.ofList cfg.delims) A0) + countNL (spell (Delims.ofList cfg.delims) (clauseItemsK nmElsif pre))) e := by
+    simp only [Clause.testAt, hsel, hpe]
+  rw [htest]
+  have h := fun body later => ifB_cond_err (mkCtx P O cfg fs fuel) line ⟨env, {}⟩
+    ((.expr line e0, nodesOf (Delims.ofList cfg.delims) A0 (line + countNL ((tg nmIf c0 w0).spell (Delims.ofList cfg.delims)))) ::
+      ifBrs (Delims.ofList cfg.delims) pre
+        (line + countNL ((tg nmIf c0 w0).spell (Delims.ofList cfg.delims)) + countNL (spell (Delims.ofList cfg.delims) A0)))
+    (.expr (line + countNL ((tg nmIf c0 w0).spell (Delims.ofList cfg.delims)) +
+      countNL (spell (Delims.ofList cfg.delims) A0) + countNL (spell (Delims.ofList cfg.delims) (clauseItemsK nmElsif pre))) e)
+    body later x
+    (by
+      intro b hb
+      rcases List.mem_cons.mp hb with rfl | hb
+      · exact hcond0
+      · exact ifBrs_falsy _ P env pre _ hpre b hb)
+    (by
+      show condRes P env (.expr _ e) = .err x
+      simp only [condRes, hve])
+    (by simp only [CondT.line]; omega)
+  simp only [List.cons_append, CondT.line] at h
+  exact h _ _
+
+/-! ### Non-vacuity of the failing-condition theorems
+
+`(1.."a")` is a range whose upper bound is not an integer: its evaluation fails with a type error in every value layer
+(the real engine: `can't convert string(a) to type int`, a `values.TypeError`).
+`{% if false %}a⏎{% elsif (1.."a") %}b{% else %}c{% endif %}` from line 1: the `elsif` tag stands at line 2, the render fails
+there — not at line 1, the line of the `if` tag — and nothing is written. -/
+def c10Poison : Bytes := [40, 49, 46, 46, 34, 97, 34, 41]
+
+example : spell Delims.default (chainSrc [102, 97, 108, 115, 101] Ws.std [.text [97, 10]]
+      ([] ++ (⟨some c10Poison, Ws.std, [.text [98]]⟩ : Clause) :: [⟨none, Ws.std, [.text [99]]⟩]) Ws.std) =
+    [123, 37, 32, 105, 102, 32, 102, 97, 108, 115, 101, 32, 37, 125, 97, 10,
+     123, 37, 32, 101, 108, 115, 105, 102, 32, 40, 49, 46, 46, 34, 97, 34, 41, 32, 37, 125, 98,
+     123, 37, 32, 101, 108, 115, 101, 32, 37, 125, 99, 123, 37, 32, 101, 110, 100, 105, 102, 32, 37, 125] := by decide
+
+example (P : Prims) (O : OutPrims) (fs : FS) (env : Env) :
+    run P O {} fs 1 (spell Delims.default (chainSrc [102, 97, 108, 115, 101] Ws.std [.text [97, 10]]
+      ([] ++ (⟨some c10Poison, Ws.std, [.text [98]]⟩ : Clause) :: [⟨none, Ws.std, [.text [99]]⟩]) Ws.std)) 1 env =
+      .err ⟨2, true, .typeErr, .byCause⟩ ∧
+    written P O {} fs 1 (spell Delims.default (chainSrc [102, 97, 108, 115, 101] Ws.std [.text [97, 10]]
+      ([] ++ (⟨some c10Poison, Ws.std, [.text [98]]⟩ : Clause) :: [⟨none, Ws.std, [.text [99]]⟩]) Ws.std)) 1 env = [] :=
+  if_chain_cond_err_source P O {} fs 1 1 env [102, 97, 108, 115, 101] Ws.std [.text [97, 10]] [] ⟨some c10Poison, Ws.std, [.text [98]]⟩
+    [⟨none, Ws.std, [.text [99]]⟩] Ws.std (.lit (.bool false)) (.bool false) c10Poison
+    (.range (.lit (.int .int 1)) (.lit (.str [97]))) .typeErr (by decide) (by decide) rfl (by decide) (by decide) rfl rfl
+    (fun _ h => by cases h) rfl rfl rfl
+
+/-- `{% if (1.."a") %}a{% elsif x %}b{% endif %}` started at line 5: the type error at line 5, whatever `x` is -/
+example (P : Prims) (O : OutPrims) (fs : FS) (env : Env) :
+    run P O {} fs 1 (spell Delims.default (chainSrc c10Poison Ws.std [.text [97]] [⟨some [120], Ws.std, [.text [98]]⟩] Ws.std)) 5 env =
+      .err ⟨5, true, .typeErr, .byCause⟩ :=
+  (if_chain_first_cond_err_source P O {} fs 1 5 env c10Poison Ws.std [.text [97]] [⟨some [120], Ws.std, [.text [98]]⟩] Ws.std
+    (.range (.lit (.int .int 1)) (.lit (.str [97]))) .typeErr (by decide) (by decide) rfl (by decide) (by decide) rfl).1
+
+/-! ## `unless` chains: `{% unless c0 %}A0{% else %}E1{% else %}E2 … {% endunless %}`
+
+What `ifTagCompiler(false)` and the grammar (`AddBlock("unless").Clause("else")`) do: the condition of the `unless` tag is negated
+(`e.Not`), an `unless` block admits `else` clauses only — any number of them, each compiled to the constant `true` — and an
+`elsif` tag inside `unless` is rejected by the block parser. So the chain is: `A0` when `c0` evaluates falsy; otherwise the FIRST
+`else` clause (later `else` clauses are never rendered); otherwise nothing (`unless_source`); the error of `c0`, at the line of
+the `unless` tag, when its evaluation fails. `unlessChainSrc c0 w0 A0 rest wE` (Proofs/SrcCondErr.lean) is the source; in the
+first three theorems every clause of `rest` is an `else` clause (`cond = none`). -/
+
+/-- **C10 (`unless`, condition falsy), from source bytes.** If `c0` evaluates to nil or false, the block — whatever `else` clauses
+    follow, as long as they compile — succeeds exactly when `A0` does (as a template of its own, where it stands), with exactly that
+    output. -/
+theorem unless_chain_body_source (P : Prims) (O : OutPrims) (cfg : Cfg) (fs : FS) (fuel : Nat) (line : Nat) (env : Env)
+    (c0 : Bytes) (w0 : Ws) (A0 : List Item) (rest : List Clause) (wE : Ws) (e0 : Expr) (v0 : GoVal)
+    (hg : GoodDelims (Delims.ofList cfg.delims)) (hc : Clean (Delims.ofList cfg.delims) (unlessChainSrc c0 w0 A0 rest wE))
+    (hcA : Clean (Delims.ofList cfg.delims) A0)
+    (hp : parseExprSource c0 = .ok e0) (hA : Compiles (Delims.ofList cfg.delims) A0 0)
+    (hrest : ∀ c ∈ rest, c.Good (Delims.ofList cfg.delims)) (helse : ∀ c ∈ rest, c.cond = none)
+    (hv : evaluate P env e0 = .ok v0) (hf : v0.test = false) (out : Bytes) :
+    run P O cfg fs fuel (spell (Delims.ofList cfg.delims) (unlessChainSrc c0 w0 A0 rest wE)) line env = .ok out ↔
+    run P O cfg fs fuel (spell (Delims.ofList cfg.delims) A0)
+      (line + countNL ((tg nmUnless c0 w0).spell (Delims.ofList cfg.delims))) env = .ok out := by
+  rw [unlessChainSrc_eq_blockSrcK] at hc ⊢
+  rw [run_chainK_shape P O cfg fs fuel line env nmUnless (.inr rfl) c0 w0 A0 rest wE e0 hg hc hp hA hrest (fun _ => helse),
+    run_spell P O cfg fs fuel A0 _ env hg hcA, nodesOf_spec hA]
+  show _ ↔ runRoot P O cfg fs fuel (nodesOf (Delims.ofList cfg.delims) A0 _) env = .ok out
+  apply runRoot_wrapped_body_ok P O cfg fs fuel _ _ env ⟨line, true⟩
+  rw [renderNode]
+  have hne : (nmUnless == nmIf) = false := by decide
+  have hcond : condRes (mkCtx P O cfg fs fuel).P (⟨env, {}⟩ : RS).env (.notExpr line e0) = .ok true := by
+    show condRes P env (.notExpr line e0) = .ok true
+    simp only [condRes, hv, hf, Bool.not_false]
+  simp only [hne, Bool.false_eq_true, if_false, wrapAt, renderBranches_cons, hcond]
+  rfl
+
+/-- **C10 (`unless`, condition truthy: the first `else`), from source bytes.** If `c0` evaluates truthy and the block has at least
+    one `else` clause, it succeeds exactly when the body of the FIRST `else` clause does (as a template of its own, at the line where
+    it stands), with exactly that output; the `else` clauses after it are not rendered. -/
+theorem unless_chain_else_source (P : Prims) (O : OutPrims) (cfg : Cfg) (fs : FS) (fuel : Nat) (line : Nat) (env : Env)
+    (c0 : Bytes) (w0 : Ws) (A0 : List Item) (first : Clause) (more : List Clause) (wE : Ws) (e0 : Expr) (v0 : GoVal)
+    (hg : GoodDelims (Delims.ofList cfg.delims))
+    (hc : Clean (Delims.ofList cfg.delims) (unlessChainSrc c0 w0 A0 (first :: more) wE))
+    (hcF : Clean (Delims.ofList cfg.delims) first.body)
+    (hp : parseExprSource c0 = .ok e0) (hA : Compiles (Delims.ofList cfg.delims) A0 0)
+    (hrest : ∀ c ∈ first :: more, c.Good (Delims.ofList cfg.delims)) (helse : ∀ c ∈ first :: more, c.cond = none)
+    (hv : evaluate P env e0 = .ok v0) (ht : v0.test = true) (out : Bytes) :
+    run P O cfg fs fuel (spell (Delims.ofList cfg.delims) (unlessChainSrc c0 w0 A0 (first :: more) wE)) line env = .ok out ↔
+    run P O cfg fs fuel (spell (Delims.ofList cfg.delims) first.body)
+      (line + countNL (spell (Delims.ofList cfg.delims) (tg nmUnless c0 w0 :: (A0 ++ [first.tag])))) env = .ok out := by
+  rw [unlessChainSrc_eq_blockSrcK] at hc ⊢
+  have hline : line + countNL (spell (Delims.ofList cfg.delims) (tg nmUnless c0 w0 :: (A0 ++ [first.tag]))) =
+      line + countNL ((tg nmUnless c0 w0).spell (Delims.ofList cfg.delims)) + countNL (spell (Delims.ofList cfg.delims) A0) +
+        countNL ((first.tagK nmElsif).spell (Delims.ofList cfg.delims)) := by
+    have h0 : countNL (spell (Delims.ofList cfg.delims) []) = 0 := rfl
+    simp only [spell_cons, spell_append, countNL_append, h0, Clause.tagK_elsif]
+    omega
+  rw [run_chainK_shape P O cfg fs fuel line env nmUnless (.inr rfl) c0 w0 A0 (first :: more) wE e0 hg hc hp hA hrest (fun _ => helse),
+    hline, run_spell P O cfg fs fuel first.body _ env hg hcF, nodesOf_spec (hrest first (List.mem_cons_self ..)).2]
+  show _ ↔ runRoot P O cfg fs fuel (nodesOf (Delims.ofList cfg.delims) first.body _) env = .ok out
+  apply runRoot_wrapped_body_ok P O cfg fs fuel _ _ env ⟨line, true⟩
+  rw [renderNode]
+  have hne : (nmUnless == nmIf) = false := by decide
+  have hcond : condRes (mkCtx P O cfg fs fuel).P (⟨env, {}⟩ : RS).env (.notExpr line e0) = .ok false := by
+    show condRes P env (.notExpr line e0) = .ok false
+    simp only [condRes, hv, ht, Bool.not_true]
+  have htest : ∀ l, first.testAt l = .always := fun l => by
+    simp only [Clause.testAt, helse first (List.mem_cons_self ..)]
+  have hcondF : condRes (mkCtx P O cfg fs fuel).P (⟨env, {}⟩ : RS).env .always = .ok true := rfl
+  simp only [hne, Bool.false_eq_true, if_false, wrapAt, ifBrs, htest, renderBranches_cons, hcond, hcondF]
+  rfl
+
+/-- **C10 (`unless`, the condition fails), from source bytes.** If `c0` is an expression whose evaluation fails with cause `x`,
+    the block fails with `x` at the line of the `unless` tag, and nothing has been written. -/
+theorem unless_chain_cond_err_source (P : Prims) (O : OutPrims) (cfg : Cfg) (fs : FS) (fuel : Nat) (line : Nat) (env : Env)
+    (c0 : Bytes) (w0 : Ws) (A0 : List Item) (rest : List Clause) (wE : Ws) (e0 : Expr) (x : Cause)
+    (hg : GoodDelims (Delims.ofList cfg.delims)) (hc : Clean (Delims.ofList cfg.delims) (unlessChainSrc c0 w0 A0 rest wE))
+    (hp : parseExprSource c0 = .ok e0) (hA : Compiles (Delims.ofList cfg.delims) A0 0)
+    (hrest : ∀ c ∈ rest, c.Good (Delims.ofList cfg.delims)) (helse : ∀ c ∈ rest, c.cond = none)
+    (hv : evaluate P env e0 = .err x) :
+    run P O cfg fs fuel (spell (Delims.ofList cfg.delims) (unlessChainSrc c0 w0 A0 rest wE)) line env = .err ⟨line, true, x, .byCause⟩ ∧
+    written P O cfg fs fuel (spell (Delims.ofList cfg.delims) (unlessChainSrc c0 w0 A0 rest wE)) line env = [] := by
+  rw [unlessChainSrc_eq_blockSrcK] at hc ⊢
+  exact chainK_first_cond_err P O cfg fs fuel line env nmUnless (.inr rfl) c0 w0 A0 rest wE e0 x hg hc hp hA hrest
+    (fun _ => helse) hv
+
+/-- **C10 (`elsif` inside `unless` is rejected), from source bytes.** `{% unless c0 %}A0{% else %}… {% elsif t %}…{% endunless %}`:
+    whatever `c0` and `t` are (expressions or not) and whatever clauses follow, as long as the bodies are self-contained templates,
+    the template is not accepted: the block parser fails at the line of the first `elsif` tag with the cause-less error
+    `elsif not inside if` (`Msg.notInside`), for every value layer and environment. -/
+theorem unless_elsif_rejected_source (P : Prims) (O : OutPrims) (cfg : Cfg) (fs : FS) (fuel : Nat) (line : Nat) (env : Env)
+    (c0 : Bytes) (w0 : Ws) (A0 : List Item) (pre : List Clause) (sel : Clause) (post : List Clause) (wE : Ws) (t : Bytes)
+    (hg : GoodDelims (Delims.ofList cfg.delims))
+    (hc : Clean (Delims.ofList cfg.delims) (unlessChainSrc c0 w0 A0 (pre ++ sel :: post) wE))
+    (hA : Compiles (Delims.ofList cfg.delims) A0 0)
+    (hbodies : ∀ c ∈ pre ++ sel :: post, Compiles (Delims.ofList cfg.delims) c.body 0)
+    (helse : ∀ c ∈ pre, c.cond = none) (hsel : sel.cond = some t) :
+    run P O cfg fs fuel (spell (Delims.ofList cfg.delims) (unlessChainSrc c0 w0 A0 (pre ++ sel :: post) wE)) line env =
+      .err ⟨line + countNL (spell (Delims.ofList cfg.delims) (tg nmUnless c0 w0 :: (A0 ++ clauseItems pre))), true, .none, .notInside⟩ := by
+  rw [unlessChainSrc_eq_blockSrcK] at hc ⊢
+  have hline : line + countNL (spell (Delims.ofList cfg.delims) (tg nmUnless c0 w0 :: (A0 ++ clauseItems pre))) =
+      line + countNL ((tg nmUnless c0 w0).spell (Delims.ofList cfg.delims)) + countNL (spell (Delims.ofList cfg.delims) A0) +
+        countNL (spell (Delims.ofList cfg.delims) (clauseItemsK nmElsif pre)) := by
+    rw [clauseItemsK_elsif]
+    simp only [spell_cons, spell_append, countNL_append]
+    omega
+  rw [run_spell P O cfg fs fuel _ line env hg hc,
+    unlessChain_elsif_compile _ line c0 w0 A0 pre sel post wE t hA hbodies helse hsel, hline]
+  rfl
+
+/-! ### Non-vacuity of the `unless` chain theorems -/
+
+/-- `{% unless nil %}a{{ y }}{% else %}b{% else %}c{% endunless %}` renders what `a{{ y }}` renders -/
+example (P : Prims) (O : OutPrims) (fs : FS) (env : Env) (out : Bytes) :
+    run P O {} fs 1 (spell Delims.default (unlessChainSrc [110, 105, 108] Ws.std c10A
+      [⟨none, Ws.std, [.text [98]]⟩, ⟨none, Ws.std, [.text [99]]⟩] Ws.std)) 1 env = .ok out ↔
+    run P O {} fs 1 (spell Delims.default c10A) 1 env = .ok out :=
+  unless_chain_body_source P O {} fs 1 1 env [110, 105, 108] Ws.std c10A [⟨none, Ws.std, [.text [98]]⟩, ⟨none, Ws.std, [.text [99]]⟩]
+    Ws.std (.lit .nil) .nil (by decide) (by decide) (by decide) rfl (by decide) (by decide) (by decide) rfl rfl out
+
+example : spell Delims.default (unlessChainSrc [48] Ws.std [.text [98]]
+      [⟨none, Ws.std, c10A⟩, ⟨none, Ws.std, [.text [99]]⟩] Ws.std) =
+    [123, 37, 32, 117, 110, 108, 101, 115, 115, 32, 48, 32, 37, 125, 98, 123, 37, 32, 101, 108, 115, 101, 32, 37, 125,
+     97, 123, 123, 32, 121, 32, 125, 125, 123, 37, 32, 101, 108, 115, 101, 32, 37, 125, 99,
+     123, 37, 32, 101, 110, 100, 117, 110, 108, 101, 115, 115, 32, 37, 125] := by decide
+
+/-- `{% unless 0 %}b{% else %}a{{ y }}{% else %}c{% endunless %}` renders what `a{{ y }}` renders: 0 is truthy, the first `else` is
+    taken, the second never -/
+example (P : Prims) (O : OutPrims) (fs : FS) (env : Env) (out : Bytes) :
+    run P O {} fs 1 (spell Delims.default (unlessChainSrc [48] Ws.std [.text [98]]
+      [⟨none, Ws.std, c10A⟩, ⟨none, Ws.std, [.text [99]]⟩] Ws.std)) 1 env = .ok out ↔
+    run P O {} fs 1 (spell Delims.default c10A) 1 env = .ok out :=
+  unless_chain_else_source P O {} fs 1 1 env [48] Ws.std [.text [98]] ⟨none, Ws.std, c10A⟩ [⟨none, Ws.std, [.text [99]]⟩]
+    Ws.std (.lit (.int .int 0)) (.int .int 0) (by decide) (by decide) (by decide) rfl (by decide) (by decide) (by decide) rfl rfl out
+
+/-- `{% unless (1.."a") %}a{% else %}b{% endunless %}` started at line 3: the type error at line 3 -/
+example (P : Prims) (O : OutPrims) (fs : FS) (env : Env) :
+    run P O {} fs 1 (spell Delims.default (unlessChainSrc c10Poison Ws.std [.text [97]] [⟨none, Ws.std, [.text [98]]⟩] Ws.std)) 3 env =
+      .err ⟨3, true, .typeErr, .byCause⟩ :=
+  (unless_chain_cond_err_source P O {} fs 1 3 env c10Poison Ws.std [.text [97]] [⟨none, Ws.std, [.text [98]]⟩] Ws.std
+    (.range (.lit (.int .int 1)) (.lit (.str [97]))) .typeErr (by decide) (by decide) rfl (by decide) (by decide) (by decide) rfl).1
+
+/-- `{% unless x %}a{% else %}b⏎{% elsif y %}c{% endunless %}`: not accepted, `elsif not inside if` at line 2 -/
+example (P : Prims) (O : OutPrims) (fs : FS) (env : Env) :
+    run P O {} fs 1 (spell Delims.default (unlessChainSrc [120] Ws.std [.text [97]]
+      ([⟨none, Ws.std, [.text [98, 10]]⟩] ++ (⟨some [121], Ws.std, [.text [99]]⟩ : Clause) :: []) Ws.std)) 1 env =
+      .err ⟨2, true, .none, .notInside⟩ :=
+  unless_elsif_rejected_source P O {} fs 1 1 env [120] Ws.std [.text [97]] [⟨none, Ws.std, [.text [98, 10]]⟩]
+    ⟨some [121], Ws.std, [.text [99]]⟩ [] Ws.std [121] (by decide) (by decide) (by decide) (by decide) (by decide) rfl
+
+/-! ## `case` with any number of clauses: `{% case s %}J{% when vs1 %}B1{% when vs2 %}B2 … {% else %}E … {% endcase %}`
+
+`caseChainSrc s w0 J rest wE` (Proofs/SrcClauses.lean) is the source: the `case` tag, whatever stands between it and the first
+clause (`J`: compiled, never rendered — `caseTagCompiler` ignores `node.Body`), then any number of clauses in any order — a clause
+with `cond = some vs` is `{% when vs %}body`, one with `cond = none` is `{% else %}body` — and `{% endcase %}`. The value list `vs` of
+a `when` tag is what the grammar rule `WHEN exprs` accepts: expressions WITHOUT filters separated by commas (`parseStatement kwWhen`);
+`or` is not a separator in this implementation (`case_bad_when_source`, and the example after it). `Clause.GoodWhen` (decidable): the
+values parse and the body is a self-contained template. `whenRes P env v es` (Proofs/C10.lean) evaluates the values in order and
+compares each with the subject by `P.equalFn` (`values.Equal` in the standard layer), stopping at the first that is equal
+(`when_matches_iff`, `when_misses_iff`); `Clause.Miss`: a `when` clause all of whose values evaluate and are unequal to the subject.
+
+As `caseTagCompiler` does: the subject is evaluated once, first; the clauses are tried in source order; the first clause that is an
+`else` or lists a value equal to the subject is rendered and nothing after it is looked at — so of several matching clauses the first
+wins, and an `else` that is not last hides every clause after it. -/
+
+/-- **C10 (`case`: the first clause that matches), from source bytes.** Let the subject `s` parse and evaluate to `v`, let every
+    clause of `pre` be a `when` clause none of whose values equals `v`, and let the next clause `sel` be an `else`, or a `when` one
+    of whose values equals `v` (the values before it in the list evaluating unequal). Then the block — whatever clauses `post`
+    follow, as long as they compile — succeeds exactly when the body of `sel` does (as a template of its own, at the line where it
+    stands), with exactly that output. -/
+theorem case_clause_source (P : Prims) (O : OutPrims) (cfg : Cfg) (fs : FS) (fuel : Nat) (line : Nat) (env : Env)
+    (s : Bytes) (w0 : Ws) (J : List Item) (pre : List Clause) (sel : Clause) (post : List Clause) (wE : Ws) (subj : Expr) (v : GoVal)
+    (hg : GoodDelims (Delims.ofList cfg.delims))
+    (hc : Clean (Delims.ofList cfg.delims) (caseChainSrc s w0 J (pre ++ sel :: post) wE))
+    (hcS : Clean (Delims.ofList cfg.delims) sel.body)
+    (hps : parseExprSource s = .ok subj) (hJ : Compiles (Delims.ofList cfg.delims) J 0)
+    (hrest : ∀ c ∈ pre ++ sel :: post, c.GoodWhen (Delims.ofList cfg.delims))
+    (hv : evaluate P env subj = .ok v)
+    (hpre : ∀ c ∈ pre, c.Miss P env v)
+    (hsel : sel.cond = none ∨ ∃ t es, sel.cond = some t ∧ parseStatement kwWhen t = .ok (.when es) ∧ whenRes P env v es = .ok true)
+    (out : Bytes) :
+    run P O cfg fs fuel (spell (Delims.ofList cfg.delims) (caseChainSrc s w0 J (pre ++ sel :: post) wE)) line env = .ok out ↔
+    run P O cfg fs fuel (spell (Delims.ofList cfg.delims) sel.body)
+      (line + countNL (spell (Delims.ofList cfg.delims) (tg nmCase s w0 :: (J ++ (clauseItemsK nmWhen pre ++ [sel.tagK nmWhen]))))) env
+      = .ok out := by
+  have hline : line + countNL (spell (Delims.ofList cfg.delims) (tg nmCase s w0 :: (J ++ (clauseItemsK nmWhen pre ++ [sel.tagK nmWhen])))) =
+      line + countNL ((tg nmCase s w0).spell (Delims.ofList cfg.delims)) + countNL (spell (Delims.ofList cfg.delims) J) +
+        countNL (spell (Delims.ofList cfg.delims) (clauseItemsK nmWhen pre)) + countNL ((sel.tagK nmWhen).spell (Delims.ofList cfg.delims)) := by
+    have h0 : countNL (spell (Delims.ofList cfg.delims) []) = 0 := rfl
+    simp only [spell_cons, spell_append, countNL_append, h0]
+    omega
+  rw [run_caseK_shape P O cfg fs fuel line env s w0 J (pre ++ sel :: post) wE subj hg hc hps hJ hrest, hline,
+    run_spell P O cfg fs fuel sel.body _ env hg hcS, nodesOf_spec (hrest sel (by simp)).2]
+  show _ ↔ runRoot P O cfg fs fuel (nodesOf (Delims.ofList cfg.delims) sel.body _) env = .ok out
+  apply runRoot_wrapped_body_ok P O cfg fs fuel _ _ env ⟨line, true⟩
+  rw [case_node_denotation (mkCtx P O cfg fs fuel) line subj _ ⟨env, {}⟩ v hv, caseCls_append]
+  obtain ⟨ws, hws, hmiss⟩ := caseCls_miss (Delims.ofList cfg.delims) P env v pre
+    (line + countNL ((tg nmCase s w0).spell (Delims.ofList cfg.delims)) + countNL (spell (Delims.ofList cfg.delims) J)) hpre
+  rw [hws]
+  simp only [caseCls]
+  rcases hsel with hn | ⟨t, es, hcnd, hpw, hw⟩
+  · have hwa : ∀ l, sel.whenAt l = none := fun l => by simp only [Clause.whenAt, hn]
+    simp only [wrapAt, hwa, case_else (mkCtx P O cfg fs fuel) v ⟨env, {}⟩ ws _ _ hmiss]
+    rfl
+  · have hwa : ∀ l, sel.whenAt l = some (l, es) := fun l => by simp only [Clause.whenAt, hcnd, hpw]
+    simp only [wrapAt, hwa, case_first_equal (mkCtx P O cfg fs fuel) v ⟨env, {}⟩ ws _ es _ _ hmiss hw]
+    rfl
+
+/-- **C10 (`case`: no clause matches), from source bytes.** If every clause is a `when` clause none of whose values equals the value
+    of the subject (no `else`), the block renders nothing, successfully. -/
+theorem case_none_source (P : Prims) (O : OutPrims) (cfg : Cfg) (fs : FS) (fuel : Nat) (line : Nat) (env : Env)
+    (s : Bytes) (w0 : Ws) (J : List Item) (rest : List Clause) (wE : Ws) (subj : Expr) (v : GoVal)
+    (hg : GoodDelims (Delims.ofList cfg.delims)) (hc : Clean (Delims.ofList cfg.delims) (caseChainSrc s w0 J rest wE))
+    (hps : parseExprSource s = .ok subj) (hJ : Compiles (Delims.ofList cfg.delims) J 0)
+    (hrest : ∀ c ∈ rest, c.GoodWhen (Delims.ofList cfg.delims))
+    (hv : evaluate P env subj = .ok v) (hall : ∀ c ∈ rest, c.Miss P env v) :
+    run P O cfg fs fuel (spell (Delims.ofList cfg.delims) (caseChainSrc s w0 J rest wE)) line env = .ok [] := by
+  rw [run_caseK_shape P O cfg fs fuel line env s w0 J rest wE subj hg hc hps hJ hrest]
+  apply runRoot_silent
+  rw [case_node_denotation (mkCtx P O cfg fs fuel) line subj _ ⟨env, {}⟩ v hv]
+  obtain ⟨ws, hws, hmiss⟩ := caseCls_miss (Delims.ofList cfg.delims) P env v rest
+    (line + countNL ((tg nmCase s w0).spell (Delims.ofList cfg.delims)) + countNL (spell (Delims.ofList cfg.delims) J)) hall
+  rw [hws]
+  simp only [wrapAt, case_none (mkCtx P O cfg fs fuel) v ⟨env, {}⟩ ws hmiss]
+  rfl
+
+/-- **C10 (`case`: a `when` value fails), from source bytes.** If the clauses `pre` are `when` clauses that miss and the next clause
+    `sel` is a `when` whose value list fails with cause `x` — the evaluation of a value, or its comparison with the subject, the
+    values before it in the list being unequal to the subject — the block fails with `x` located at the line of THAT `when` tag
+    (`parser.WrapError(err, clause.body())`), and nothing has been written: later clauses, an `else` included, are not reached. -/
+theorem case_when_err_source (P : Prims) (O : OutPrims) (cfg : Cfg) (fs : FS) (fuel : Nat) (line : Nat) (env : Env)
+    (s : Bytes) (w0 : Ws) (J : List Item) (pre : List Clause) (sel : Clause) (post : List Clause) (wE : Ws) (subj : Expr) (v : GoVal)
+    (t : Bytes) (es : List Expr) (x : Cause)
+    (hg : GoodDelims (Delims.ofList cfg.delims))
+    (hc : Clean (Delims.ofList cfg.delims) (caseChainSrc s w0 J (pre ++ sel :: post) wE))
+    (hps : parseExprSource s = .ok subj) (hJ : Compiles (Delims.ofList cfg.delims) J 0)
+    (hrest : ∀ c ∈ pre ++ sel :: post, c.GoodWhen (Delims.ofList cfg.delims))
+    (hv : evaluate P env subj = .ok v)
+    (hpre : ∀ c ∈ pre, c.Miss P env v)
+    (hsel : sel.cond = some t) (hpw : parseStatement kwWhen t = .ok (.when es)) (hw : whenRes P env v es = .err x) :
+    run P O cfg fs fuel (spell (Delims.ofList cfg.delims) (caseChainSrc s w0 J (pre ++ sel :: post) wE)) line env =
+      .err ⟨line + countNL (spell (Delims.ofList cfg.delims) (tg nmCase s w0 :: (J ++ clauseItemsK nmWhen pre))), true, x, .byCause⟩ ∧
+    written P O cfg fs fuel (spell (Delims.ofList cfg.delims) (caseChainSrc s w0 J (pre ++ sel :: post) wE)) line env = [] := by
+  have hline : line + countNL (spell (Delims.ofList cfg.delims) (tg nmCase s w0 :: (J ++ clauseItemsK nmWhen pre))) =
+      line + countNL ((tg nmCase s w0).spell (Delims.ofList cfg.delims)) + countNL (spell (Delims.ofList cfg.delims) J) +
+        countNL (spell (Delims.ofList cfg.delims) (clauseItemsK nmWhen pre)) := by
+    simp only [spell_cons, spell_append, countNL_append]
+    omega
+  rw [hline]
+  apply run_written_single_fail P O cfg fs fuel _ line env hg hc _ _
+    (caseK_compile _ line s w0 J (pre ++ sel :: post) wE subj hps hJ hrest)
+  rw [caseCls_append]
+  obtain ⟨ws, hws, hmiss⟩ := caseCls_miss (Delims.ofList cfg.delims) P env v pre
+    (line + countNL ((tg nmCase s w0).spell (Delims.ofList cfg.delims)) + countNL (spell (Delims.ofList cfg.delims) J)) hpre
+  rw [hws]
+  have hwa : ∀ l, sel.whenAt l = some (l, es) := fun l => by simp only [Clause.whenAt, hsel, hpw]
+  simp only [caseCls, hwa]
+  exact caseB_when_err (mkCtx P O cfg fs fuel) line subj ⟨env, {}⟩ v hv ws _ es _ _ x hmiss hw (by omega)
+
+/-- **C10 (`case`: the subject fails), from source bytes.** If the subject is an expression whose evaluation fails with cause `x`,
+    the block fails with `x` at the line of the `case` tag, and nothing has been written: no `when` value is evaluated. -/
+theorem case_subject_err_source (P : Prims) (O : OutPrims) (cfg : Cfg) (fs : FS) (fuel : Nat) (line : Nat) (env : Env)
+    (s : Bytes) (w0 : Ws) (J : List Item) (rest : List Clause) (wE : Ws) (subj : Expr) (x : Cause)
+    (hg : GoodDelims (Delims.ofList cfg.delims)) (hc : Clean (Delims.ofList cfg.delims) (caseChainSrc s w0 J rest wE))
+    (hps : parseExprSource s = .ok subj) (hJ : Compiles (Delims.ofList cfg.delims) J 0)
+    (hrest : ∀ c ∈ rest, c.GoodWhen (Delims.ofList cfg.delims))
+    (hv : evaluate P env subj = .err x) :
+    run P O cfg fs fuel (spell (Delims.ofList cfg.delims) (caseChainSrc s w0 J rest wE)) line env = .err ⟨line, true, x, .byCause⟩ ∧
+    written P O cfg fs fuel (spell (Delims.ofList cfg.delims) (caseChainSrc s w0 J rest wE)) line env = [] := by
+  apply run_written_single_fail P O cfg fs fuel _ line env hg hc _ _
+    (caseK_compile _ line s w0 J rest wE subj hps hJ hrest)
+  exact caseB_subject_err (mkCtx P O cfg fs fuel) line subj _ ⟨env, {}⟩ x hv
+
+/-- **C10 (`case`: a `when` tag whose arguments are not a value list), from source bytes.** If the subject is an expression, the
+    `when` clauses `pre` have value lists and the arguments `t` of the next `when` tag do not parse as `WHEN exprs` — `2 or 1`,
+    a value with a filter, nothing at all — the template is not accepted: a syntax error at the line of that `when` tag. -/
+theorem case_bad_when_source (P : Prims) (O : OutPrims) (cfg : Cfg) (fs : FS) (fuel : Nat) (line : Nat) (env : Env)
+    (s : Bytes) (w0 : Ws) (J : List Item) (pre : List Clause) (sel : Clause) (post : List Clause) (wE : Ws) (subj : Expr)
+    (t : Bytes) (x : ParseErr)
+    (hg : GoodDelims (Delims.ofList cfg.delims))
+    (hc : Clean (Delims.ofList cfg.delims) (caseChainSrc s w0 J (pre ++ sel :: post) wE))
+    (hps : parseExprSource s = .ok subj) (hJ : Compiles (Delims.ofList cfg.delims) J 0)
+    (hbodies : ∀ c ∈ pre ++ sel :: post, Compiles (Delims.ofList cfg.delims) c.body 0)
+    (hpre : ∀ c ∈ pre, c.whenOk = true) (hsel : sel.cond = some t) (hbad : parseStatement kwWhen t = .err x) :
+    run P O cfg fs fuel (spell (Delims.ofList cfg.delims) (caseChainSrc s w0 J (pre ++ sel :: post) wE)) line env =
+      .err ⟨line + countNL (spell (Delims.ofList cfg.delims) (tg nmCase s w0 :: (J ++ clauseItemsK nmWhen pre))), true, .syntax, .byCause⟩ := by
+  have hline : line + countNL (spell (Delims.ofList cfg.delims) (tg nmCase s w0 :: (J ++ clauseItemsK nmWhen pre))) =
+      line + countNL ((tg nmCase s w0).spell (Delims.ofList cfg.delims)) + countNL (spell (Delims.ofList cfg.delims) J) +
+        countNL (spell (Delims.ofList cfg.delims) (clauseItemsK nmWhen pre)) := by
+    simp only [spell_cons, spell_append, countNL_append]
+    omega
+  rw [run_spell P O cfg fs fuel _ line env hg hc,
+    caseK_compile_bad _ line s w0 J pre sel post wE subj t x hps hJ hbodies hpre hsel hbad, hline]
+  rfl
+
+/-- **C10 (a `when` list matches), for every value layer.** `whenRes … = .ok true` says: some value of the list evaluates to a value
+    equal to the subject (`P.equalFn`), and every value before it in the list evaluates, without error, to a value that is not. -/
+theorem when_matches_iff (P : Prims) (env : Env) (sel : GoVal) (es : List Expr) :
+    whenRes P env sel es = .ok true ↔
+      ∃ pre e post u, es = pre ++ e :: post ∧ (∀ y ∈ pre, ∃ w, evaluate P env y = .ok w ∧ P.equalFn sel w = .ok false) ∧
+        evaluate P env e = .ok u ∧ P.equalFn sel u = .ok true := by
+  induction es with
+  | nil =>
+    constructor
+    · intro h; cases h
+    · rintro ⟨pre, e, post, u, h, -⟩
+      cases pre <;> cases h
+  | cons a r ih =>
+    rw [whenRes]
+    cases ha : evaluate P env a with
+    | ok w =>
+      simp only
+      cases hq : P.equalFn sel w with
+      | ok b =>
+        cases b with
+        | true =>
+          simp only [true_iff]
+          exact ⟨[], a, r, w, rfl, (fun _ h => by cases h), ha, hq⟩
+        | false =>
+          simp only
+          rw [ih]
+          constructor
+          · rintro ⟨pre, e, post, u, h1, h2, h3, h4⟩
+            refine ⟨a :: pre, e, post, u, by rw [h1]; rfl, ?_, h3, h4⟩
+            intro y hy
+            rcases List.mem_cons.mp hy with rfl | hy
+            · exact ⟨w, ha, hq⟩
+            · exact h2 y hy
+          · rintro ⟨pre, e, post, u, h1, h2, h3, h4⟩
+            cases pre with
+            | nil =>
+              simp only [List.nil_append, List.cons.injEq] at h1
+              obtain ⟨rfl, -⟩ := h1
+              rw [ha] at h3
+              cases h3
+              rw [hq] at h4
+              cases h4
+            | cons p pre =>
+              simp only [List.cons_append, List.cons.injEq] at h1
+              obtain ⟨rfl, rfl⟩ := h1
+              exact ⟨pre, e, post, u, rfl, fun y hy => h2 y (List.mem_cons_of_mem _ hy), h3, h4⟩
+      | err c =>
+        simp only
+        constructor
+        · intro h; cases h
+        · rintro ⟨pre, e, post, u, h1, h2, h3, h4⟩
+          cases pre with
+          | nil =>
+            simp only [List.nil_append, List.cons.injEq] at h1
+            obtain ⟨rfl, -⟩ := h1
+            rw [ha] at h3; cases h3
+            rw [hq] at h4; cases h4
+          | cons p pre =>
+            simp only [List.cons_append, List.cons.injEq] at h1
+            obtain ⟨rfl, -⟩ := h1
+            obtain ⟨w', hw1, hw2⟩ := h2 a (List.mem_cons_self ..)
+            rw [ha] at hw1; cases hw1
+            rw [hq] at hw2; cases hw2
+      | panic m =>
+        simp only
+        constructor
+        · intro h; cases h
+        · rintro ⟨pre, e, post, u, h1, h2, h3, h4⟩
+          cases pre with
+          | nil =>
+            simp only [List.nil_append, List.cons.injEq] at h1
+            obtain ⟨rfl, -⟩ := h1
+            rw [ha] at h3; cases h3
+            rw [hq] at h4; cases h4
+          | cons p pre =>
+            simp only [List.cons_append, List.cons.injEq] at h1
+            obtain ⟨rfl, -⟩ := h1
+            obtain ⟨w', hw1, hw2⟩ := h2 a (List.mem_cons_self ..)
+            rw [ha] at hw1; cases hw1
+            rw [hq] at hw2; cases hw2
+      | unmodelled m =>
+        simp only
+        constructor
+        · intro h; cases h
+        · rintro ⟨pre, e, post, u, h1, h2, h3, h4⟩
+          cases pre with
+          | nil =>
+            simp only [List.nil_append, List.cons.injEq] at h1
+            obtain ⟨rfl, -⟩ := h1
+            rw [ha] at h3; cases h3
+            rw [hq] at h4; cases h4
+          | cons p pre =>
+            simp only [List.cons_append, List.cons.injEq] at h1
+            obtain ⟨rfl, -⟩ := h1
+            obtain ⟨w', hw1, hw2⟩ := h2 a (List.mem_cons_self ..)
+            rw [ha] at hw1; cases hw1
+            rw [hq] at hw2; cases hw2
+    | err c =>
+      simp only
+      constructor
+      · intro h; cases h
+      · rintro ⟨pre, e, post, u, h1, h2, h3, h4⟩
+        cases pre with
+        | nil =>
+          simp only [List.nil_append, List.cons.injEq] at h1
+          obtain ⟨rfl, -⟩ := h1
+          rw [ha] at h3; cases h3
+        | cons p pre =>
+          simp only [List.cons_append, List.cons.injEq] at h1
+          obtain ⟨rfl, -⟩ := h1
+          obtain ⟨w', hw1, -⟩ := h2 a (List.mem_cons_self ..)
+          rw [ha] at hw1; cases hw1
+    | panic m =>
+      simp only
+      constructor
+      · intro h; cases h
+      · rintro ⟨pre, e, post, u, h1, h2, h3, h4⟩
+        cases pre with
+        | nil =>
+          simp only [List.nil_append, List.cons.injEq] at h1
+          obtain ⟨rfl, -⟩ := h1
+          rw [ha] at h3; cases h3
+        | cons p pre =>
+          simp only [List.cons_append, List.cons.injEq] at h1
+          obtain ⟨rfl, -⟩ := h1
+          obtain ⟨w', hw1, -⟩ := h2 a (List.mem_cons_self ..)
+          rw [ha] at hw1; cases hw1
+    | unmodelled m =>
+      simp only
+      constructor
+      · intro h; cases h
+      · rintro ⟨pre, e, post, u, h1, h2, h3, h4⟩
+        cases pre with
+        | nil =>
+          simp only [List.nil_append, List.cons.injEq] at h1
+          obtain ⟨rfl, -⟩ := h1
+          rw [ha] at h3; cases h3
+        | cons p pre =>
+          simp only [List.cons_append, List.cons.injEq] at h1
+          obtain ⟨rfl, -⟩ := h1
+          obtain ⟨w', hw1, -⟩ := h2 a (List.mem_cons_self ..)
+          rw [ha] at hw1; cases hw1
+
+/-- **C10 (a `when` list misses), for every value layer.** `whenRes … = .ok false` says: every value of the list evaluates, without
+    error, to a value that is not equal to the subject. -/
+theorem when_misses_iff (P : Prims) (env : Env) (sel : GoVal) (es : List Expr) :
+    whenRes P env sel es = .ok false ↔ ∀ y ∈ es, ∃ w, evaluate P env y = .ok w ∧ P.equalFn sel w = .ok false := by
+  induction es with
+  | nil => simp [whenRes]
+  | cons a r ih =>
+    rw [whenRes]
+    cases ha : evaluate P env a with
+    | ok w =>
+      simp only
+      cases hq : P.equalFn sel w with
+      | ok b =>
+        cases b with
+        | true =>
+          simp only
+          constructor
+          · intro h; cases h
+          · intro h
+            obtain ⟨w', h1, h2⟩ := h a (List.mem_cons_self ..)
+            rw [ha] at h1; cases h1
+            rw [hq] at h2; cases h2
+        | false =>
+          simp only
+          rw [ih]
+          constructor
+          · intro h y hy
+            rcases List.mem_cons.mp hy with rfl | hy
+            · exact ⟨w, ha, hq⟩
+            · exact h y hy
+          · intro h y hy
+            exact h y (List.mem_cons_of_mem _ hy)
+      | err c =>
+        simp only
+        constructor
+        · intro h; cases h
+        · intro h
+          obtain ⟨w', h1, h2⟩ := h a (List.mem_cons_self ..)
+          rw [ha] at h1; cases h1
+          rw [hq] at h2; cases h2
+      | panic m =>
+        simp only
+        constructor
+        · intro h; cases h
+        · intro h
+          obtain ⟨w', h1, h2⟩ := h a (List.mem_cons_self ..)
+          rw [ha] at h1; cases h1
+          rw [hq] at h2; cases h2
+      | unmodelled m =>
+        simp only
+        constructor
+        · intro h; cases h
+        · intro h
+          obtain ⟨w', h1, h2⟩ := h a (List.mem_cons_self ..)
+          rw [ha] at h1; cases h1
+          rw [hq] at h2; cases h2
+    | err c =>
+      simp only
+      constructor
+      · intro h; cases h
+      · intro h
+        obtain ⟨w', h1, -⟩ := h a (List.mem_cons_self ..)
+        rw [ha] at h1; cases h1
+    | panic m =>
+      simp only
+      constructor
+      · intro h; cases h
+      · intro h
+        obtain ⟨w', h1, -⟩ := h a (List.mem_cons_self ..)
+        rw [ha] at h1; cases h1
+    | unmodelled m =>
+      simp only
+      constructor
+      · intro h; cases h
+      · intro h
+        obtain ⟨w', h1, -⟩ := h a (List.mem_cons_self ..)
+        rw [ha] at h1; cases h1
+
+/-! ### Non-vacuity of the `case` theorems (value layer `c10Prims`: two Go `int`s are equal when they are the same number)
+
+`{% case 1 %}junk{% when 2, 3 %}a{% when 4, 1 %}b{{ y }}{% when 1 %}c{% else %}d{% endcase %}`: the first clause misses, the second lists a
+value equal to the subject — the block renders what `b{{ y }}` renders; the third clause (which matches too) and the `else` are not
+looked at; `junk` is not rendered. -/
+def c10CasePre : List Clause := [⟨some [50, 44, 32, 51], Ws.std, [.text [97]]⟩]
+def c10CaseSel : Clause := ⟨some [52, 44, 32, 49], Ws.std, [.text [98], ob [121]]⟩
+def c10CasePost : List Clause := [⟨some [49], Ws.std, [.text [99]]⟩, ⟨none, Ws.std, [.text [100]]⟩]
+
+example : spell Delims.default (caseChainSrc [49] Ws.std [.text [106, 117, 110, 107]] (c10CasePre ++ c10CaseSel :: c10CasePost) Ws.std) =
+    [123, 37, 32, 99, 97, 115, 101, 32, 49, 32, 37, 125, 106, 117, 110, 107,
+     123, 37, 32, 119, 104, 101, 110, 32, 50, 44, 32, 51, 32, 37, 125, 97,
+     123, 37, 32, 119, 104, 101, 110, 32, 52, 44, 32, 49, 32, 37, 125, 98, 123, 123, 32, 121, 32, 125, 125,
+     123, 37, 32, 119, 104, 101, 110, 32, 49, 32, 37, 125, 99,
+     123, 37, 32, 101, 108, 115, 101, 32, 37, 125, 100, 123, 37, 32, 101, 110, 100, 99, 97, 115, 101, 32, 37, 125] := by decide
+
+example (O : OutPrims) (fs : FS) (env : Env) (out : Bytes) :
+    run c10Prims O {} fs 1 (spell Delims.default (caseChainSrc [49] Ws.std [.text [106, 117, 110, 107]]
+      (c10CasePre ++ c10CaseSel :: c10CasePost) Ws.std)) 1 env = .ok out ↔
+    run c10Prims O {} fs 1 (spell Delims.default [.text [98], ob [121]]) 1 env = .ok out :=
+  case_clause_source c10Prims O {} fs 1 1 env [49] Ws.std [.text [106, 117, 110, 107]] c10CasePre c10CaseSel c10CasePost Ws.std
+    (.lit (.int .int 1)) (.int .int 1) (by decide) (by decide) (by decide) rfl (by decide) (by decide) rfl
+    (by
+      intro c hc
+      simp only [c10CasePre, List.mem_singleton] at hc
+      subst hc
+      exact ⟨[50, 44, 32, 51], [.lit (.int .int 2), .lit (.int .int 3)], rfl, rfl, rfl⟩)
+    (.inr ⟨[52, 44, 32, 49], [.lit (.int .int 4), .lit (.int .int 1)], rfl, rfl, rfl⟩) out
+
+/-- `{% case 1 %}{% when 2 %}a{% else %}b{{ y }}{% when 1 %}c{% endcase %}`: an `else` that is not last hides the matching `when` after it -/
+example (O : OutPrims) (fs : FS) (env : Env) (out : Bytes) :
+    run c10Prims O {} fs 1 (spell Delims.default (caseChainSrc [49] Ws.std []
+      ([⟨some [50], Ws.std, [.text [97]]⟩] ++ (⟨none, Ws.std, [.text [98], ob [121]]⟩ : Clause) :: [⟨some [49], Ws.std, [.text [99]]⟩]) Ws.std)) 1 env
+      = .ok out ↔
+    run c10Prims O {} fs 1 (spell Delims.default [.text [98], ob [121]]) 1 env = .ok out :=
+  case_clause_source c10Prims O {} fs 1 1 env [49] Ws.std [] [⟨some [50], Ws.std, [.text [97]]⟩] ⟨none, Ws.std, [.text [98], ob [121]]⟩
+    [⟨some [49], Ws.std, [.text [99]]⟩] Ws.std
+    (.lit (.int .int 1)) (.int .int 1) (by decide) (by decide) (by decide) rfl (by decide) (by decide) rfl
+    (by
+      intro c hc
+      simp only [List.mem_singleton] at hc
+      subst hc
+      exact ⟨[50], [.lit (.int .int 2)], rfl, rfl, rfl⟩)
+    (.inl rfl) out
+
+/-- `{% case 1 %}{% when 2 %}a{% when 3, 4 %}b{% endcase %}` renders nothing -/
+example (O : OutPrims) (fs : FS) (env : Env) :
+    run c10Prims O {} fs 1 (spell Delims.default (caseChainSrc [49] Ws.std []
+      [⟨some [50], Ws.std, [.text [97]]⟩, ⟨some [51, 44, 32, 52], Ws.std, [.text [98]]⟩] Ws.std)) 1 env = .ok [] :=
+  case_none_source c10Prims O {} fs 1 1 env [49] Ws.std [] [⟨some [50], Ws.std, [.text [97]]⟩, ⟨some [51, 44, 32, 52], Ws.std, [.text [98]]⟩]
+    Ws.std (.lit (.int .int 1)) (.int .int 1) (by decide) (by decide) rfl (by decide) (by decide) rfl
+    (by
+      intro c hc
+      simp only [List.mem_cons, List.mem_nil_iff, or_false] at hc
+      rcases hc with rfl | rfl
+      · exact ⟨[50], [.lit (.int .int 2)], rfl, rfl, rfl⟩
+      · exact ⟨[51, 44, 32, 52], [.lit (.int .int 3), .lit (.int .int 4)], rfl, rfl, rfl⟩)
+
+/-- `{% case 1 %}{% when 2 %}a⏎{% when 3, (1.."a") %}b{% else %}c{% endcase %}`: the second value of the second clause fails — the type
+    error at line 2, the line of that `when` tag, nothing written; the `else` is not reached -/
+example (O : OutPrims) (fs : FS) (env : Env) :
+    run c10Prims O {} fs 1 (spell Delims.default (caseChainSrc [49] Ws.std []
+      ([⟨some [50], Ws.std, [.text [97, 10]]⟩] ++ (⟨some ([51, 44, 32] ++ c10Poison), Ws.std, [.text [98]]⟩ : Clause) ::
+        [⟨none, Ws.std, [.text [99]]⟩]) Ws.std)) 1 env = .err ⟨2, true, .typeErr, .byCause⟩ :=
+  (case_when_err_source c10Prims O {} fs 1 1 env [49] Ws.std [] [⟨some [50], Ws.std, [.text [97, 10]]⟩]
+    ⟨some ([51, 44, 32] ++ c10Poison), Ws.std, [.text [98]]⟩ [⟨none, Ws.std, [.text [99]]⟩] Ws.std
+    (.lit (.int .int 1)) (.int .int 1) ([51, 44, 32] ++ c10Poison)
+    [.lit (.int .int 3), .range (.lit (.int .int 1)) (.lit (.str [97]))] .typeErr
+    (by decide) (by decide) rfl (by decide) (by decide) rfl
+    (by
+      intro c hc
+      simp only [List.mem_singleton] at hc
+      subst hc
+      exact ⟨[50], [.lit (.int .int 2)], rfl, rfl, rfl⟩)
+    rfl rfl rfl).1
+
+/-- `{% case (1.."a") %}{% when 2 %}a{% endcase %}` started at line 4: the type error at line 4, in every value layer -/
+example (P : Prims) (O : OutPrims) (fs : FS) (env : Env) :
+    run P O {} fs 1 (spell Delims.default (caseChainSrc c10Poison Ws.std [] [⟨some [50], Ws.std, [.text [97]]⟩] Ws.std)) 4 env =
+      .err ⟨4, true, .typeErr, .byCause⟩ :=
+  (case_subject_err_source P O {} fs 1 4 env c10Poison Ws.std [] [⟨some [50], Ws.std, [.text [97]]⟩] Ws.std
+    (.range (.lit (.int .int 1)) (.lit (.str [97]))) .typeErr (by decide) (by decide) rfl (by decide) (by decide) rfl).1
+
+/-- `{% case 1 %}{% when 2 or 1 %}a{% endcase %}`: `or` does not separate `when` values here — a syntax error at the `when` tag -/
+example (P : Prims) (O : OutPrims) (fs : FS) (env : Env) :
+    run P O {} fs 1 (spell Delims.default (caseChainSrc [49] Ws.std []
+      ([] ++ (⟨some [50, 32, 111, 114, 32, 49], Ws.std, [.text [97]]⟩ : Clause) :: []) Ws.std)) 1 env =
+      .err ⟨1, true, .syntax, .byCause⟩ :=
+  case_bad_when_source P O {} fs 1 1 env [49] Ws.std [] [] ⟨some [50, 32, 111, 114, 32, 49], Ws.std, [.text [97]]⟩ [] Ws.std
+    (.lit (.int .int 1)) [50, 32, 111, 114, 32, 49] .syntax (by decide) (by decide) rfl (by decide) (by decide)
+    (fun _ h => by cases h) rfl rfl
+
+/-! ## The start line ≥ 1 of `if_else_unless_dual_up_to_line_source` is needed
+
+`RunResult.sameUpToLine` lets two errors differ in their line only when the two lines are zero together (line 0 is special in
+`parser.WrapError`: an error that carries neither path nor line is located anew by the enclosing node). From start line 0 —
+`ParseTemplateLocation` accepts it — the pair of `dual_lines_differ` fails at line 0 in the `if` form and at line 1 in the `unless`
+form (the real engine: `Liquid error: undefined variable in {{ y }}` with `LineNumber() = 0` against `Liquid error (line 1): …`),
+so the two results are not related. The cause, the message and the path flag still agree there; that they do for every pair
+started at line 0 is not proved. -/
+
+/-- **C10 (counterexample to the duality up to the line from start line 0).** -/
+theorem dual_up_to_line_needs_start_line (P : Prims) (O : OutPrims) (fs : FS) :
+    run P O strictCfg fs 1
+      (spell Delims.default (ifElseSrc [116, 114, 117, 101] [ob [121]] [.text [10]] Ws.std Ws.std Ws.std)) 0 [] =
+      .err ⟨0, true, .other "undefinedVariable", .byCause⟩ ∧
+    run P O strictCfg fs 1
+      (spell Delims.default (unlessElseSrc [116, 114, 117, 101] [.text [10]] [ob [121]] Ws.std Ws.std Ws.std)) 0 [] =
+      .err ⟨1, true, .other "undefinedVariable", .byCause⟩ ∧
+    ¬ (run P O strictCfg fs 1
+      (spell Delims.default (ifElseSrc [116, 114, 117, 101] [ob [121]] [.text [10]] Ws.std Ws.std Ws.std)) 0 []).sameUpToLine
+      (run P O strictCfg fs 1
+      (spell Delims.default (unlessElseSrc [116, 114, 117, 101] [.text [10]] [ob [121]] Ws.std Ws.std Ws.std)) 0 []) := by
+  have h1 : run P O strictCfg fs 1
+      (spell Delims.default (ifElseSrc [116, 114, 117, 101] [ob [121]] [.text [10]] Ws.std Ws.std Ws.std)) 0 [] =
+      .err ⟨0, true, .other "undefinedVariable", .byCause⟩ := by
+    rw [show Delims.default = Delims.ofList strictCfg.delims from rfl,
+      run_spell _ _ _ _ _ _ _ _ (by decide) (by decide)]
+    show runRoot P O strictCfg fs 1
+      [.ifB 0 [(.expr 0 (.lit (.bool true)), [.obj 0 (.var [121])]), (.always, [.text 0 [10]])]] [] = _
+    simp [runRoot, frender, renderRoot, renderList, renderNode, renderBranches, renderBlockBody, evalCond, wrapAt, wrapFailAt,
+      M.mapFail, M.bind, M.pure, M.getEnv, M.ofRes, M.fail, Prog.bind, Prog.mapFail, Prog.runPure, bind, pure, mkCtx,
+      evaluate, eval, Env.get, GoVal.test, GoVal.unwrap, GoVal.isNil, GoVal.toLiquid, wrapError, strictCfg, Loc.isZero]
+  have h2 : run P O strictCfg fs 1
+      (spell Delims.default (unlessElseSrc [116, 114, 117, 101] [.text [10]] [ob [121]] Ws.std Ws.std Ws.std)) 0 [] =
+      .err ⟨1, true, .other "undefinedVariable", .byCause⟩ := by
+    rw [show Delims.default = Delims.ofList strictCfg.delims from rfl,
+      run_spell _ _ _ _ _ _ _ _ (by decide) (by decide)]
+    show runRoot P O strictCfg fs 1
+      [.ifB 0 [(.notExpr 0 (.lit (.bool true)), [.text 0 [10]]), (.always, [.obj 1 (.var [121])])]] [] = _
+    simp [runRoot, frender, renderRoot, renderList, renderNode, renderBranches, renderBlockBody, evalCond, wrapAt, wrapFailAt,
+      M.mapFail, M.bind, M.pure, M.getEnv, M.ofRes, M.fail, Prog.bind, Prog.mapFail, Prog.runPure, bind, pure, mkCtx,
+      evaluate, eval, Env.get, GoVal.test, GoVal.unwrap, GoVal.isNil, GoVal.toLiquid, wrapError, strictCfg, Loc.isZero]
+  refine ⟨h1, h2, ?_⟩
+  rw [h1, h2]
+  intro h
+  have := h.2.2.2
+  simp at this
+
+/-! ## The duality on any number of lines, bodies with `include` tags included
+
+`if_else_unless_dual_up_to_line_source` excludes bodies that contain an `include` tag: the included file is compiled with the
+line of the include tag as its start line, so in the two forms its nodes stand at different lines. That restriction is not needed.
+Compiling a source text at another start line moves its lines and changes nothing else, errors included (`compileSource_shift`,
+Proofs/SrcShiftSource.lean: the tokenizer, the stack machine of the block parser and the compiler commute with the move), hence the
+engine's include handler is line-independent at every depth (`incRel_mkCtx`, by induction on the include fuel) and
+`lineRelI_renderNode` (Proofs/SrcRelInclude.lean) extends `lineRel_renderNode` to every compiled tree. -/
+
+/-- **C10 (`unless` is the dual of `if`), from source bytes, on any number of lines, any bodies.** For every condition text `c` and
+    ALL self-contained bodies `A`, `B` — `include` tags at any depth, any file system, any include fuel — the sources
+    `{% if c %}A{% else %}B{% endif %}` and `{% unless c %}B{% else %}A{% endunless %}` give results that agree up to the line of the
+    error (`RunResult.sameUpToLine`): the same output; or errors with the same cause, message and path flag, the lines zero together;
+    or the same panic — from any start line ≥ 1 (needed: `dual_up_to_line_needs_start_line`). -/
+theorem if_else_unless_dual_up_to_line_incl_source (P : Prims) (O : OutPrims) (cfg : Cfg) (fs : FS) (fuel : Nat) (line : Nat) (env : Env)
+    (hline : 1 ≤ line) (c : Bytes) (A B : List Item) (w1 w2 w3 w4 w5 w6 : Ws)
+    (hg : GoodDelims (Delims.ofList cfg.delims))
+    (hc1 : Clean (Delims.ofList cfg.delims) (ifElseSrc c A B w1 w2 w3))
+    (hc2 : Clean (Delims.ofList cfg.delims) (unlessElseSrc c B A w4 w5 w6))
+    (hA : Compiles (Delims.ofList cfg.delims) A 0) (hB : Compiles (Delims.ofList cfg.delims) B 0) :
+    (run P O cfg fs fuel (spell (Delims.ofList cfg.delims) (ifElseSrc c A B w1 w2 w3)) line env).sameUpToLine
+      (run P O cfg fs fuel (spell (Delims.ofList cfg.delims) (unlessElseSrc c B A w4 w5 w6)) line env) := by
+  obtain ⟨nA, hnA⟩ := hA.nodes
+  obtain ⟨nB, hnB⟩ := hB.nodes
+  rw [ifElseSrc, unlessElseSrc,
+    run_ifElse_shape P O cfg fs fuel env nmIf (.inl rfl) c A B w1 w2 w3 line hg hc1 _ _
+      (compiles_any_line _ A _ hnA) (compiles_any_line _ B _ hnB),
+    run_ifElse_shape P O cfg fs fuel env nmUnless (.inr rfl) c B A w4 w5 w6 line hg hc2 _ _
+      (compiles_any_line _ B _ hnB) (compiles_any_line _ A _ hnA)]
+  cases liftParse line true (parseExprSource c) with
+  | ok ex =>
+    generalize hlA1 : line + countNL ((tg nmIf c w1).spell (Delims.ofList cfg.delims)) = lA1
+    generalize hlB1 : lA1 + countNL (spell (Delims.ofList cfg.delims) A) + countNL ((tg nmElse [] w2).spell (Delims.ofList cfg.delims)) = lB1
+    generalize hlB2 : line + countNL ((tg nmUnless c w4).spell (Delims.ofList cfg.delims)) = lB2
+    generalize hlA2 : lB2 + countNL (spell (Delims.ofList cfg.delims) B) + countNL ((tg nmElse [] w5).spell (Delims.ofList cfg.delims)) = lA2
+    have p1 : 1 ≤ lA1 := by omega
+    have p2 : 1 ≤ lB1 := by omega
+    have p3 : 1 ≤ lB2 := by omega
+    have p4 : 1 ≤ lA2 := by omega
+    show (runRoot P O cfg fs fuel [.ifB line [(.expr line ex, relNodes (· + lA1) nA), (.always, relNodes (· + lB1) nB)]] env).sameUpToLine
+      (runRoot P O cfg fs fuel [.ifB line [(.notExpr line ex, relNodes (· + lB2) nB), (.always, relNodes (· + lA2) nA)]] env)
+    rw [← runRoot_single_congr P O cfg fs fuel _ _ env (unless_dual _ line ex (relNodes (· + lA2) nA) (relNodes (· + lB2) nB) _)]
+    apply runRoot_single_rel
+    rw [renderNode, renderNode]
+    refine relM_wrapAt _ ⟨rfl, Iff.rfl⟩ ?_ _
+    simp only [renderBranches]
+    refine relM_bind (relM_refl (R := fun a b : Bool => a = b) (fun _ => rfl) _) (fun b b' hb => ?_)
+    subst hb
+    split
+    · exact lineRel_renderBlockBody_engine P O cfg fs fuel (fun x => by constructor <;> intro h <;> omega) nA
+    · refine relM_bind (relM_refl (R := fun a b : Bool => a = b) (fun _ => rfl) _) (fun b b' hb => ?_)
+      subst hb
+      split
+      · exact lineRel_renderBlockBody_engine P O cfg fs fuel (fun x => by constructor <;> intro h <;> omega) nB
+      · exact relM_refl StatusRel.refl _
+  | err e => exact RunResult.sameUpToLine_refl _
+  | panic w => exact RunResult.sameUpToLine_refl _
+  | unmodelled w => exact RunResult.sameUpToLine_refl _
+
+/-- Non-vacuity: `{% if x %}{% include "f" %}{% else %}⏎{% endif %}` against `{% unless x %}⏎{% else %}{% include "f" %}{% endunless %}` —
+    the include tag stands at line 1 in the first source and at line 2 in the second — whatever `x` is bound to, whatever the file
+    `f` contains (or if it does not exist), for every value layer and include depth -/
+example (P : Prims) (O : OutPrims) (fs : FS) (fuel : Nat) (env : Env) :
+    (run P O {} fs fuel
+      (spell Delims.default (ifElseSrc [120] [tg nmInclude [34, 102, 34] Ws.std] [.text [10]] Ws.std Ws.std Ws.std)) 1 env).sameUpToLine
+    (run P O {} fs fuel
+      (spell Delims.default (unlessElseSrc [120] [.text [10]] [tg nmInclude [34, 102, 34] Ws.std] Ws.std Ws.std Ws.std)) 1 env) :=
+  if_else_unless_dual_up_to_line_incl_source P O {} fs fuel 1 env (by decide) [120] [tg nmInclude [34, 102, 34] Ws.std] [.text [10]]
+    Ws.std Ws.std Ws.std Ws.std Ws.std Ws.std (by decide) (by decide) (by decide) (by decide) (by decide)
